@@ -6,6 +6,27 @@ TB = ('Trusted base: clang 14 front end (parser, Sema, constant evaluator, clang
       'the value-level remainder of the property (listed in the evidence under "NOT decided").')
 
 CLAIMED = {
+    'C01': {
+        'text': 'Clause-limited static decision (level "other"): (1) generator mask algebra - in both colour instantiations of the four '
+                'generators every mask handed to a move-emitting helper is interpreted bit by bit (bit-level abstract interpretation of '
+                'the straight-line bitboard dataflow reaching the call; all 64 target squares x every assignment of the board atoms) and '
+                'shown to imply the rule of chess for that piece kind (own pawn on the origin, empty squares for pushes, home rank for '
+                'double pushes, enemy piece or en-passant square for captures, no file wrap; attack set minus own pieces for the others), '
+                'and to contain every move of the class the generator promises (all / evasions / captures+promotions / '
+                'captures+promotions+direct and discovered checks); (2) castling is emitted only under the matching right bit, the exact '
+                'empty-square mask, own rook on the corner and un-attacked king and transit squares; (3) every attack-set/piece-set '
+                'intersection pairs the attack function with the sliders/leapers that move that way, of the right colour, and sqAttacked '
+                'tests every attacker kind; promotion emission splits exactly on the last rank; (4) the legality filter skips make-move only '
+                'under guards that make the shortcut sound (not king, not en passant, off every king ray / not a checking knight; king lifted '
+                'from the occupancy); (5) in givesCheck every unbounded ray scan runs in a non-zero direction towards the enemy king, '
+                'direction classes pair with slider kinds, and the en-passant rank scan starts outside the pawn pair. Right level: these '
+                'are exactly the places where a generator can be wrong for one geometry only - the rule checks every square and every '
+                'board-atom assignment at once, which no sample of positions does.',
+        'design_ref': 'DESIGN.md section 2, C01',
+        'note': TB + ' Takes the attack / direction / between tables (BitBoard::staticInitialize) and Position::makeMove as given; does not decide '
+                     'agreement of the verdicts with playing the move for every position (value-level) nor absence of duplicates.',
+        'technique': 'custom static analysis: bit-level abstract interpretation of bitboard dataflow (truth-table columns per square), guard-set dominance, sibling agreement, finite constant evaluation per template instantiation',
+    },
     'C02': {
         'text': 'Clause-limited static decision (level "other"): (1) the material signature arithmetic is free of signed overflow over the '
                 'whole promotion-consistent material polytope (constant evaluation of the weights + type of every arithmetic node) - the '
